@@ -3112,3 +3112,29 @@ M("C07", "breaks-with-path-set-extended", CUG,
   "    update_graph_for_break_events_with_path_to_root_event(\n        break_events_with_path_back_to_root,",
   "    break_events_with_path_back_to_root.update(loop.end_events)\n    update_graph_for_break_events_with_path_to_root_event(\n        break_events_with_path_back_to_root,",
   "R7.11 R7.13 R7.22", "a computed set is extended in place before it is handed on")
+
+# ---- R1.31 the gate tree goes through every stage (seed C01-y) --------------
+M("C01", "gate-fast-path-skips-repeat-marker", LD,
+  "    process_tree = calculate_process_tree_from_event_sets(event_sets)\n    logic_gate_tree = reduce_process_tree_to_preferred_logic_gates(",
+  "    if len(event_sets) == 1:\n        (event_set,) = event_sets\n        if len(event_set) == 1:\n            (label,) = event_set\n            return ProcessTree(label=label)\n    process_tree = calculate_process_tree_from_event_sets(event_sets)\n    logic_gate_tree = reduce_process_tree_to_preferred_logic_gates(",
+  "R1.31", "a lone successor type bypasses the repeat marker: {B: 2} is drawn as one B (seed C01-y)")
+M("C01", "gate-tree-returned-before-repeats", LD,
+  "    return logic_gate_tree_with_repeats\n",
+  "    return logic_gate_tree\n",
+  "R1.31", "the tree without the repeat marker is handed out")
+M("C01", "gate-reduction-skipped", LD,
+  "    logic_gate_tree_with_repeats = calculate_repeats_in_tree(\n        event_sets, logic_gate_tree\n    )",
+  "    logic_gate_tree_with_repeats = calculate_repeats_in_tree(\n        event_sets, process_tree\n    )",
+  "R1.31", "the repeat stage works on the unreduced miner tree")
+M("C01", "no-gate-tree-for-single-observation", LD,
+  "    if len(event_sets) == 0:\n        return None\n    process_tree",
+  "    if len(event_sets) <= 1:\n        return None\n    process_tree",
+  "R1.31", "an event with one observed successor set gets no gate tree")
+T("C01", "twin-gate-stages-nested", LD,
+  "    process_tree = calculate_process_tree_from_event_sets(event_sets)\n    logic_gate_tree = reduce_process_tree_to_preferred_logic_gates(\n        event_sets, process_tree\n    )\n    logic_gate_tree_with_repeats = calculate_repeats_in_tree(\n        event_sets, logic_gate_tree\n    )\n\n    return logic_gate_tree_with_repeats\n",
+  "    return calculate_repeats_in_tree(\n        event_sets,\n        reduce_process_tree_to_preferred_logic_gates(\n            event_sets, calculate_process_tree_from_event_sets(event_sets)\n        ),\n    )\n",
+  "the three stages written as one nested expression")
+T("C01", "twin-gate-empty-test-truthiness", LD,
+  "    if len(event_sets) == 0:\n        return None\n    process_tree",
+  "    if not event_sets:\n        return None\n    process_tree",
+  "emptiness of the observation tested by truthiness")
